@@ -57,6 +57,10 @@ func TestC19(t *testing.T) {
 			tr := Execute(t, s, true)
 			n, _, cl := s.Shape()
 			o := evid.Outcome{Classes: append(cl, "limit"), Summary: summary(s, tr)}
+			if tr.HarnessPanic != "" {
+				o.Skip = "harness panic"
+				return o
+			}
 			o.NonTrivial = uint64(n) >= s.Q
 			if tr.Deadlock != "" && len(tr.Leaked) == 0 {
 				o.Skip = "run did not complete"
